@@ -729,15 +729,20 @@ impl JobServerHandle {
     where
         F: FnOnce() -> i32,
     {
-        {
-            let mut state = self.state.borrow_mut();
-            assert_eq!(state.my_tokens, 1);
-            // Subprocesses always start with 1 token, so we have to destroy ours
-            // in order for the universe to stay in balance.
-            state.destroy_tokens(1);
-        }
+        assert_eq!(self.state.borrow().my_tokens, 1);
+        // Anything that can fail comes before we give up our token: a job that
+        // was never started has no token to die with.
         let (r, w) = make_pipe(50).map_err(RedoError::opaque_error)?;
-        match unsafe { unistd::fork() }.map_err(RedoError::opaque_error)? {
+        // Subprocesses always start with 1 token, so we have to destroy ours
+        // in order for the universe to stay in balance.
+        self.state.borrow_mut().destroy_tokens(1);
+        let forked = unsafe { unistd::fork() };
+        if forked.is_err() {
+            self.state.borrow_mut().create_tokens(1);
+            let _ = unistd::close(r);
+            let _ = unistd::close(w);
+        }
+        match forked.map_err(RedoError::opaque_error)? {
             ForkResult::Child => {
                 if let Err(e) = unistd::close(r) {
                     log_err!("close read end of pipe: {}\n", e);
